@@ -113,16 +113,6 @@ func sidecar(tx *types.Transaction) []Sidecar {
 	return []Sidecar{{Ver: int(sc.Version), Blobs: rb.L(bl), Comms: rb.L(cs), Proofs: rb.L(ps)}}
 }
 
-// scAsList is the length the sidecar content would have as an RLP list of its own (ApproxNoScSize in
-// TxEnvelope.tla), computed with the driver's own encoder.
-func scAsList(sc Sidecar) int {
-	xs := []rb.Item{sc.Blobs, sc.Comms, sc.Proofs}
-	if sc.Ver != 0 {
-		xs = append([]rb.Item{rb.S([]byte{byte(sc.Ver)})}, xs...)
-	}
-	return len(rb.EncodeItem(rb.L(xs), nil, 0))
-}
-
 func scEqual(a, b []Sidecar) bool {
 	if len(a) != len(b) {
 		return false
@@ -321,15 +311,7 @@ func compare(sum *tl.Summary, what string, form string, in []byte, got Obs, want
 		bad("Hash() is not the keccak of the specification's preimage (or differs with/without sidecar/caches)")
 	}
 	if got.NoScSz != len(want.Pre) {
-		// TODO-KNOWN-FINDING (C02-sidecar-size, see spec/codec/NOTES.md and TxEnvelope.tla): pending decision of the
-		// coordinator.  Exactly this deviation is tolerated and counted: the sidecar-free copy reports
-		// Size(with sidecar) - ListSize(sidecar content), which is wrong when the wrapper list's header is longer
-		// than the header a list of the sidecar content alone would have.
-		if os.Getenv("VERIF_C02_STRICT") == "" && len(want.Sc) == 1 && got.NoScSz == len(want.Bin)-scAsList(want.Sc[0]) {
-			sum.Extra["known_finding_sidecar_size"] = sum.Extra["known_finding_sidecar_size"].(int) + 1
-		} else {
-			bad(fmt.Sprintf("WithoutBlobTxSidecar().Size() = %d, length of that envelope is %d", got.NoScSz, len(want.Pre)))
-		}
+		bad(fmt.Sprintf("WithoutBlobTxSidecar().Size() = %d, length of that envelope is %d", got.NoScSz, len(want.Pre)))
 	}
 	if got.JSON != "ok" && got.JSON != "skip" {
 		bad("JSON round trip: " + got.JSON)
@@ -347,7 +329,6 @@ func runCases(path string, sum *tl.Summary) {
 		tl.Fatal("no cases in %s", path)
 	}
 	jsonOK, jsonSkip := 0, 0
-	sum.Extra["known_finding_sidecar_size"] = 0
 	for i, c := range cases {
 		in, net := c.In.Bytes(), c.Net.Bytes()
 		extra := func() tl.M { return tl.M{"base": c.Base, "kind": c.Kind, "pos": c.Pos, "sym": c.Sym} }
